@@ -119,7 +119,11 @@ def observe(case, level=None):
         enc = seg.to_er7()
         e["enc"] = cps(enc)
         stage = "parse"
-        p = parse_segment(enc, version=case["v"], validation_level=lvl)
+        if case.get("route") == "value":
+            p = Segment(case["seg"], version=case["v"], validation_level=lvl)
+            p.value = enc
+        else:
+            p = parse_segment(enc, version=case["v"], validation_level=lvl)
         e["pnames"] = [c.name if c.name is not None else "?" for c in p.children if c.to_er7() != ""]
         stage = "read"
         if case.get("zdt"):
@@ -169,7 +173,15 @@ def observe_full(case, level=None):
 
 def _observe_chunk(args):
     cases, level = args
-    return [observe_full(c, level) if c["kind"] == "full" else observe(c, level) for c in cases]
+    out = []
+    for n, c in enumerate(cases):
+        out.append(observe_full(c, level) if c["kind"] == "full" else observe(c, level))
+        # the second way of reading a segment's text: Segment(name).value = text (every MSH case, every seventh other)
+        if c["kind"] != "full" and (c["seg"] == "MSH" or n % 7 == 0):
+            c2 = dict(c)
+            c2["route"] = "value"
+            out.append(observe(c2, level))
+    return out
 
 
 def obs_index(e):
@@ -189,7 +201,7 @@ def obs_index(e):
 
 
 def signature(e, clause):
-    sig = {"kind": e["kind"], "v": e["v"], "seg": e["seg"], "vseg": e["v"] + "/" + e["seg"], "lvl": e["lvl"],
+    sig = {"kind": e["kind"], "v": e["v"], "seg": e["seg"], "vseg": e["v"] + "/" + e["seg"], "lvl": e["lvl"], "route": e.get("route", "parse_segment"),
            "clause": clause}
     if e["kind"] in ("comp", "sub"):
         sig["dt"] = e["dt"]
